@@ -89,7 +89,7 @@ def run(tier, seed, rep):
                 vs += [variant("Explicit", ser=["KeepMe_AsIs", "k"]), variant("Ts", ts="Also Kept"),
                        variant("Both", ser=["ser_Only"], ts="To_String"),
                        variant("SameAsIdent", ser=["SameAsIdent"]), variant("TsSameAsIdent", ts="TsSameAsIdent"),
-                       ] + ([variant("EmptyOnly", ser=[""])] if ci == 1 else [])      # an empty explicit name is a name (the last chunk holds an identifier whose styled form is empty)
+                       ] + ([variant("EmptyOnly", ser=[""])] if ci == 0 else [])      # an empty explicit name is a name (only in the first chunk: the last one holds an identifier whose styled form is empty, and an empty spelling switches off length- and first-byte shortcuts that the chunk of non-ASCII initials is there to exercise)
                 # a prefix is written in front of the name as given: the style renames the identifier, never the prefix
                 cands.append(enum(did, vs, style=st, cis=bool(did % 2), aci=bool((did // 2) % 2),
                                   prefix=[None, "Pre.Fix/", None, "onX "][did % 4]))
